@@ -2,6 +2,6 @@ SPECIFICATION Spec
 CONSTANTS
     Docs = {0, 1, 2}
     MaxLookups = 3
-    Dev = {}
+    Dev = {"DrainPrealloc"}
 INVARIANTS CountRight IterRight NoCrash FirstRight
 CHECK_DEADLOCK FALSE
